@@ -420,7 +420,7 @@ func (c *checker) serverScenario(sc scenario, only *replayCase, rng *vlib.Rng) {
 			}
 		}
 		switch {
-		case explicit && iatValid && oracleCert(st.Args["node-id"], st.Args["private-key"]) != "" && len(st.Args["drbg-seed"]) == 48:
+		case explicit && iatValid && oracleCert(st.Args["node-id"], st.Args["private-key"]) != "" && validSeed(st.Args["drbg-seed"]):
 			want := presented{oracleCert(st.Args["node-id"], st.Args["private-key"]), "0"}
 			if hasIAT {
 				want.IAT = iatArg
@@ -460,6 +460,10 @@ func (c *checker) serverScenario(sc scenario, only *replayCase, rng *vlib.Rng) {
 			if rep.OK && cur != nil && !explicit {
 				cur = &presented{cur.Cert, rep.IAT}
 			}
+		}
+		// ---- S: a refused start must not change what later starts present
+		if !rep.OK && cur != nil {
+			c.refusedProbe(sc, si, st, rep, before, after, *cur)
 		}
 		if rep.OK && !reflect.DeepEqual(rep.Keys, []string{"cert", "iat-mode"}) {
 			c.r.Violate("advertised-arguments-changed", "impl-oracle", fmt.Sprintf("Args() has keys %v", rep.Keys), rcase)
@@ -518,6 +522,54 @@ func (c *checker) serverScenario(sc scenario, only *replayCase, rng *vlib.Rng) {
 		if only != nil && only.Step == si {
 			return
 		}
+	}
+}
+
+// validSeed: drbg.SeedFromHex accepts any hex text of at least 24 bytes (and truncates it).
+func validSeed(s string) bool {
+	b, err := hex.DecodeString(s)
+	return err == nil && len(b) >= 24
+}
+
+// refusedProbe: start `si` was refused (ServerFactory returned an error) although the directory
+// holds a persisted identity.  The property: every later start presents the persisted identity —
+// so a plain start from the directory as the refused start left it (probed on a copy) must
+// succeed and present exactly what was presented before, IAT mode included; and the persisted
+// record itself must be untouched.
+func (c *checker) refusedProbe(sc scenario, si int, st step, rep reply, before, after map[string][]byte, cur presented) {
+	trunc := scenario{Kind: sc.Kind, Steps: append([]step(nil), sc.Steps[:si+1]...)}
+	rc := replayCase{Type: "sequence", Scenario: &trunc, Step: si,
+		Note: fmt.Sprintf("start %d (args %v) is refused (%s); then a start without arguments from the directory it left", si, st.Args, rep.Err)}
+	dir := c.mkdir()
+	defer os.RemoveAll(dir)
+	if err := writeDir(dir, after); err != nil {
+		panic(err)
+	}
+	probe, _, err := runHelper(request{Cmd: "server", Dir: dir}, false, c.scratch)
+	if err != nil {
+		c.r.Violate("helper-failed", "correspondence", err.Error(), rc)
+		return
+	}
+	c.r.Case(fmt.Sprintf("refused|%s|%v", dirText(before), st.Args), true)
+	c.r.Validated(1)
+	c.r.Count("refused_start", argClass(st.Args))
+	c.r.Sample(12, map[string]interface{}{"refused_start": si, "args": st.Args, "error": rep.Err, "next_plain_start": implNext(probe), "persisted": cur})
+	bRec, aRec := completeRec(before[stateFile]), completeRec(after[stateFile])
+	recChanged := bRec != nil && (aRec == nil || *aRec != *bRec)
+	switch {
+	case !probe.OK:
+		c.r.Violate("refused-start-loses-identity", "impl-oracle",
+			fmt.Sprintf("start %d with arguments %v is refused (%s) — but it has changed the state directory: the next start without arguments fails (%s); the persisted identity cert=%s iat-mode=%s is lost [state file before: %s | after: %s]",
+				si, st.Args, rep.Err, probe.Err, cur.Cert, cur.IAT, before[stateFile], after[stateFile]), rc)
+	case probe.Cert != cur.Cert:
+		c.r.Violate("refused-start-replaces-identity", "impl-oracle",
+			fmt.Sprintf("start %d with arguments %v is refused (%s) — but the next start without arguments presents cert=%s, the persisted identity was cert=%s", si, st.Args, rep.Err, probe.Cert, cur.Cert), rc)
+	case probe.IAT != cur.IAT:
+		c.r.Violate("refused-start-changes-iat-mode", "impl-oracle",
+			fmt.Sprintf("start %d with arguments %v is refused (%s) — but the next start without arguments presents iat-mode=%s, the persisted mode was %s", si, st.Args, rep.Err, probe.IAT, cur.IAT), rc)
+	case recChanged:
+		c.r.Violate("refused-start-rewrites-state-file", "impl-oracle",
+			fmt.Sprintf("start %d with arguments %v is refused (%s) — but the persisted record changed: before %s | after %s", si, st.Args, rep.Err, before[stateFile], after[stateFile]), rc)
 	}
 }
 
@@ -1121,14 +1173,24 @@ func randomServerScenario(rng *vlib.Rng, n int) scenario {
 	for i := 0; i < n; i++ {
 		st := step{Seed: rng.U64() | 1}
 		st.Args = map[string]string{}
-		switch c := rng.Intn(12); {
-		case i == 0 && c < 8, c < 3:
+		switch c := rng.Intn(12) - 4; {
+		case i == 0 && c < 4, c < -1:
 			// no arguments
-		case c < 7:
+		case c < 2:
 			st.Args["iat-mode"] = strconv.Itoa(rng.Intn(3))
-		case c < 8:
-			st.Args["iat-mode"] = vlib.Pick(rng, []string{"3", "-1", "x", "", "+1", "01", "2 "})
-		case c < 10:
+		case c < 4:
+			// out-of-range / non-numeric / oddly written override
+			st.Args["iat-mode"] = vlib.Pick(rng, []string{"3", "7", "-1", "x", "", "+1", "01", "2 ", "99999999999999999999", "1.0"})
+		case c < 5:
+			// complete explicit identity with one malformed member (refused)
+			id := [3]string{hexOf(rng, 20), hexOf(rng, 32), hexOf(rng, 24)}
+			k := rng.Intn(3)
+			id[k] = vlib.Pick(rng, []string{"", "zz", id[k][2:], id[k] + "00", "0x" + id[k][2:], id[k][:len(id[k])-1]})
+			st.Args["node-id"], st.Args["private-key"], st.Args["drbg-seed"] = id[0], id[1], id[2]
+			if rng.Bool() {
+				st.Args["iat-mode"] = vlib.Pick(rng, []string{"0", "1", "2", "5"})
+			}
+		case c < 6:
 			var id [3]string
 			if len(ids) > 0 && rng.Bool() {
 				id = ids[rng.Intn(len(ids))]
@@ -1143,7 +1205,7 @@ func randomServerScenario(rng *vlib.Rng, n int) scenario {
 			if rng.Bool() {
 				st.Args["iat-mode"] = strconv.Itoa(rng.Intn(3))
 			}
-		case c < 11:
+		case c < 7:
 			// partial / malformed explicit identity
 			st.Args["node-id"] = hexOf(rng, 20)
 			if rng.Bool() {
@@ -1279,6 +1341,23 @@ func main() {
 		{Args: map[string]string{"iat-mode": "1"}},
 		{},
 		{Args: map[string]string{"iat-mode": "2"}},
+		// refused starts (invalid / garbage / partial arguments), each followed by a plain start
+		{Args: map[string]string{"iat-mode": "3"}},
+		{},
+		{Args: map[string]string{"iat-mode": "x"}},
+		{Args: map[string]string{"iat-mode": "-1"}},
+		{Args: map[string]string{"iat-mode": "1"}},
+		{Args: map[string]string{"iat-mode": "7"}},
+		{},
+		{Args: map[string]string{"node-id": strings.Repeat("ab", 20)}},
+		{Args: map[string]string{"node-id": "not-hex", "private-key": strings.Repeat("cd", 32), "drbg-seed": strings.Repeat("ef", 24)}},
+		{Args: map[string]string{"node-id": strings.Repeat("ab", 20), "private-key": strings.Repeat("cd", 31), "drbg-seed": strings.Repeat("ef", 24), "iat-mode": "1"}},
+		{Args: map[string]string{"node-id": strings.Repeat("ab", 20), "private-key": strings.Repeat("cd", 32), "drbg-seed": strings.Repeat("ef", 23)}},
+		{Args: map[string]string{"node-id": strings.Repeat("ab", 20), "private-key": strings.Repeat("cd", 32), "drbg-seed": strings.Repeat("ef", 24), "iat-mode": "9"}},
+		{},
+		// an over-long drbg-seed is accepted (truncated to 24 bytes): explicit identity, then plain
+		{Args: map[string]string{"node-id": strings.Repeat("AB", 20), "private-key": strings.Repeat("cd", 32), "drbg-seed": strings.Repeat("ef", 26)}},
+		{},
 	}}
 	saveTorn := c.allTorn
 	c.allTorn = true
